@@ -60,7 +60,7 @@ def main():
         notes="See DESIGN.md. Every check: translate -> prove (make + Print Assumptions) -> correspond (model run inside Coq vs implementation) -> "
               "oracle/search on the implementation -> report. VERIF_REPO overrides /repo for trying seeded changes in scratch worktrees only. "
               "No guarded hook commit exists (harnesses wrap functions in their own process). Genuine defects repaired in /repo by unguarded "
-              "`fix:` commits (27ac519 3c452cf 6d6bb6f 0ec38a3 3d244df 559c452 9eb5088 b73cab6 fe0cadd): each is recorded in "
+              "`fix:` commits (27ac519 3c452cf 6d6bb6f 0ec38a3 3d244df 559c452 9eb5088 b73cab6 fe0cadd c602e93): each is recorded in "
               "known_findings.jsonl with status fixed (`record`: 'fixed: property=<id> <commit> <what failed>'); recorded, unrepaired "
               "defects have status known and are printed as KNOWN-FINDING (docs/FINDINGS.md).",
         not_applicable=not_applicable,
